@@ -53,7 +53,7 @@ func c01(tier string) []*explore.Scenario {
 	out = append(out, c16RPCFam("C01", "2unary", false, 1), c16RPCFam("C01", "2unary", true, 1), c16RPCFam("C01", "payloads", true, 0))
 	// up to 64 callers whose handlers all wait: every queue of the path is full at once
 	out = append(out, c01Gated("direct", 64, 64, 0), c01Gated("direct", 32, 0, 0), c01Gated("demux", 64, 64, 0), c01Gated("demux", 40, 0, 0),
-		c01Gated("proxy", 40, 64, 0), c01Gated("proxy", 24, 0, 0), c01Gated("demux", 12, 0, 1), c01Gated("proxy", 64, 0, 0))
+		c01Gated("proxy", 40, 64, 0), c01Gated("proxy", 24, 0, 0), c01Gated("demux", 12, 0, 1), c01Gated("proxy", 64, 0, 0), c01Gated("demux", 20, 64, 1), c01Gated("proxy", 20, 64, 1), c01Gated("direct", 20, 0, 1))
 	return out
 }
 
